@@ -19,7 +19,7 @@ RULE = ("fault space = truncation points of the writer: frame sizes 2*nc for nc 
         "distinct = distinct (nc, frames, trailing, claim, fs, reader class)")
 ASSUMPTIONS = ["truncation = a prefix of the byte stream the writer would have produced", "at least one complete frame is present",
                "still-acquiring metadata (no fileTimeSecs / fileSizeBytes yet) is only given to OnlineReader, the class meant for it"]
-REQUIRED = {"constructions": 400, "prefix_values_checked": 400, "half_frame_or_more": 100, "beyond_end_reads": 400, "cbin_short": 2, "deferred_opens": 60, "reopens_after_growth": 100, "long_off_by_few": 6, "other_sample_widths": 40}
+REQUIRED = {"constructions": 400, "prefix_values_checked": 400, "half_frame_or_more": 100, "beyond_end_reads": 400, "cbin_short": 2, "deferred_opens": 60, "reopens_after_growth": 100, "metadata_without_size_field": 100, "long_off_by_few": 6, "other_sample_widths": 40}
 CASE_TIMEOUT = 400.0
 NCS = [2, 5, 97, 277, 385]
 FRAMES = [1, 2, 22, 1000]
@@ -112,8 +112,12 @@ def run_case(case):
                 data = rec.raw.tobytes()[: frames * frame + trailing]
                 b = d / "t.ap.bin"
                 b.write_bytes(data)
-                for cls_name in ("Reader", "OnlineReader", "OnlineReader-acquiring"):
+                for cls_name in ("Reader", "OnlineReader", "OnlineReader-acquiring", "Reader-no-size-field"):
                     text = rec.meta_text if cls_name != "OnlineReader-acquiring" else in_progress(rec.meta_text)
+                    if cls_name == "Reader-no-size-field":
+                        # metadata that give the duration but not the size in bytes (converted / hand-written / stripped headers)
+                        text = "".join(ln + "\n" for ln in rec.meta_text.splitlines() if not ln.startswith(("fileSizeBytes", "fileSHA1")))
+                        res.count("metadata_without_size_field")
                     b.with_suffix(".meta").write_text(text)
                     label = f"{cls_name} nc={nc} frames={frames} trailing={trailing}B claim={claim}({claim_ns}) fs={fs}"
                     keyp = "online" if cls_name.startswith("Online") else "reader"
@@ -124,7 +128,7 @@ def run_case(case):
                     if 2 * trailing >= frame:
                         res.count("half_frame_or_more")
                     try:
-                        R = spikeglx.Reader if cls_name == "Reader" else spikeglx.OnlineReader
+                        R = spikeglx.Reader if cls_name.startswith("Reader") else spikeglx.OnlineReader
                         sr = R(b, sort=False, ignore_warnings=bool(rng.integers(0, 2)) if cls_name != "OnlineReader-acquiring" else False)
                         res.count("constructions")
                     except Exception as e:
